@@ -373,7 +373,9 @@ Definition calculate (d : doc) : calc_result :=
         let total := match included with Some ti => sub total1 ti | None => total1 end in
         let tax := precise_or taxsum taxsum_r in
         let twt := add total tax in
-        let payable := match d_rounding d with Some r => add twt r | None => twt end in
+        (* t.Rounding is rescaled to zero.Exp() in place; payable adds the rescaled value (as repaired) *)
+        let rounding := match d_rounding d with Some r => Some (rescale r c) | None => None end in
+        let payable := match rounding with Some r => add twt r | None => twt end in
         let advs := map (advance_amount c twt) (d_advances d) in
         let advances := sum_opt c advs in
         let due := match advances with Some a => Some (sub payable a) | None => None end in
@@ -384,7 +386,7 @@ Definition calculate (d : doc) : calc_result :=
                          (map (fun p => present_ddc c (fst p) (snd p)) dds)
                          (map (fun p => present_ddc c (fst p) (snd p)) ccs)
                          (map R advs) (map (due_amount c payable) (d_dues d))
-                         cats taxsum_r taxsum)
+                         cats taxsum_r taxsum rounding)
       end
     end
   end.
